@@ -419,4 +419,4 @@ package main
 //@   modifies glob:stdout glob:exitcode
 //@   panics iff glob(panicval) != zero(glob(panicval))
 //@   onpanic exit-code-1: glob(exitcode) == 1
-//@   onpanic diagnostic: glob(stdout) == old(glob(stdout)) + sprintf("%s: %s\n", fname, glob(panicval))
+//@   onpanic diagnostic: prefixof(old(glob(stdout)) + fname + ": ", glob(stdout))
